@@ -264,6 +264,15 @@ theorem memo_run_eq (memoised : Bool) : ∀ (ops : List COp) (s s' : CState), Co
     level, a prompt classified as that level's share group -/
 theorem classification_flags : classifyFlags = ["I", "M"] ∧ classifiesPrompts = true := by decide
 
+/-- generated obligation (since /repo c887324): `send_inputs_interact` stops at `interaction_complete_patterns` -/
+theorem interact_breaks : interactBreaksOnComplete = true := by decide
+
+/-- hence an authenticated escalation on a device that asks for no password leaves exactly the escalate
+    command in the device's log: the secondary password is NOT typed as a command (finding F23, fixed) -/
+theorem escalation_types_no_password (sec : Line) (pw : Option Line) (a x : Name) (esc : Line) :
+    authLog sec pw a x esc = [(a, esc)] := by
+  cases pw <;> simp [authLog, interact_breaks]
+
 /-- generated obligation: `update_privilege_levels` reaches `cache_clear()` on every path -/
 theorem update_clears_cache : updateClearsCache = true := by decide
 
